@@ -3,6 +3,7 @@
 package node
 
 import (
+	"errors"
 	"fmt"
 	"strings"
 
@@ -252,6 +253,77 @@ func init() {
 		w.ex.Thread("G1", func() { w.n.Send(w.pids["C1"], "go") })
 		w.ex.Thread("G2", func() { w.n.Send(w.pids["C2"], "go") })
 		return map[string][]string{"q1": {"re:q1"}, "q2": {"re:q2"}, "p1": {"re:p1"}}
+	})
+	// every form of the request API and both forms of the reply (value, error), two callers at a time: each request
+	// returns the value or the error made for it
+	c07delay["api-forms"] = true
+	c07Scenario("api-forms", 1, 2, false, func(c *c07world) map[string][]string {
+		w := c.w
+		r := &rec{name: "S"}
+		w.recs["S"] = r
+		w.Setup("spawnS", func() {
+			pid, err := w.n.SpawnRegister("sname", func() gen.ProcessBehavior { return &probe{} }, gen.ProcessOptions{}, probeCfg{rec: r, onCall: func(p *probe, from gen.PID, ref gen.Ref, m any) (any, error) {
+				q := fmt.Sprint(m)
+				if strings.HasPrefix(q, "e") { // answered with an error that names the request
+					c.sendRes = append(c.sendRes, fmt.Sprint(p.SendResponseError(from, ref, errors.New("err:"+q))))
+					return nil, nil
+				}
+				return "re:" + q, nil
+			}})
+			if err != nil {
+				panic(err)
+			}
+			w.pids["S"] = pid
+		})
+		var al gen.Alias
+		w.Do("S", func(p *probe) error { al, _ = p.CreateAlias(); return nil })
+		forms := func(name string, tag string) {
+			w.spawnProbe(name, probeCfg{onMsg: func(p *probe, from gen.PID, m any) error {
+				if m != "go" {
+					return nil
+				}
+				spid := w.pids["S"]
+				add := func(q string, v any, err error) {
+					if err != nil && strings.HasPrefix(err.Error(), "err:") {
+						v, err = err.Error(), nil // the error reply made for a request counts as its value
+					}
+					c.results = append(c.results, callRes{q, v, err})
+				}
+				var v any
+				var err error
+				v, err = p.Call(spid, tag+"1")
+				add(tag+"1", v, err)
+				v, err = p.CallWithPriority(spid, "e"+tag+"2", gen.MessagePriorityHigh)
+				add("e"+tag+"2", v, err)
+				v, err = p.CallImportant(spid, tag+"3")
+				add(tag+"3", v, err)
+				v, err = p.CallPID(spid, "e"+tag+"4", 1)
+				add("e"+tag+"4", v, err)
+				v, err = p.CallProcessID(gen.ProcessID{Name: "sname", Node: w.n.Name()}, tag+"5", 1)
+				add(tag+"5", v, err)
+				v, err = p.CallAlias(al, "e"+tag+"6", 1)
+				add("e"+tag+"6", v, err)
+				v, err = p.CallWithPriority(spid, tag+"7", gen.MessagePriorityMax)
+				add(tag+"7", v, err)
+				return nil
+			}}, gen.ProcessOptions{})
+		}
+		forms("C1", "q")
+		forms("C2", "p")
+		w.ex.Thread("G1", func() { w.n.Send(w.pids["C1"], "go") })
+		w.ex.Thread("G2", func() { w.n.Send(w.pids["C2"], "go") })
+		valid := map[string][]string{}
+		for _, tag := range []string{"q", "p"} {
+			for i := 1; i <= 7; i++ {
+				q := fmt.Sprintf("%s%d", tag, i)
+				if i%2 == 0 {
+					valid["e"+q] = []string{"err:e" + q}
+				} else {
+					valid[q] = []string{"re:" + q}
+				}
+			}
+		}
+		return valid
 	})
 	// the same with one request per caller under preemption bounding: both callers find the meta process asleep
 	// and wake it at the same moment (a request is presented once, whoever starts the mailbox loop)
